@@ -87,14 +87,19 @@ T['C07'] = ("""C07 Oneof groups stay exclusive in both directions.""", [
     ('C07_to_msg_active', 'to_field_oneof_msg_active', 'CopyTo: the active message branch is rendered as a non-null object'),
 ])
 
-T['C08'] = ("""C08 Apply echo (partial: the per-attribute facts the echo rests on; the whole-plan statement is exercised by
-the oracle on every run).""", [
+T['C08'] = ("""C08 Apply echo (whole-plan theorem for messages without oneofs and field-less messages; the per-attribute facts
+for the rest; the remaining shapes are decided by the oracle on every run).""", [
     ('C08_no_unknown', 'copy_to_clean', 'copying back into the plan leaves nothing unknown where the plan object is written'),
     ('C08_scalar_fixpoint', 'to_prim_value_idem', 'a scalar attribute written from a value is a fixpoint of writing that value again'),
     ('C08_reset_roundtrip', 'from_prim_value_null', 'a null or unknown scalar decodes to the zero value'),
     ('C08_echo_scalar', 'echo_prim', 'apply echo of one scalar attribute: reading a planned known value and writing it back into the plan reproduces the attribute (null stays null)'),
     ('C08_echo_pointer', 'echo_prim_ptr', 'the same for pointer-backed scalars'),
     ('C08_echo_unknown', 'echo_prim_unknown', 'an unknown planned scalar is read as zero and written back as a known null: nothing stays unknown'),
+    ('C08_echo_message_partial', 'copy_echo_partial', 'whole plans: for every plan of the class (every attribute present with its type, known scalars within the range of the Go field, distinct map keys, by-value messages known) CopyFrom into the zero struct and CopyTo back INTO THE PLAN both succeed without diagnostics, and the result relates to the plan attribute by attribute at every depth: nothing unknown; what the plan knew as null stays null; what it knew as a value comes back with the same payload, not null (in place); inside re-made list and map elements a zero element may come back null and vice versa (class: rt_ok without oneofs and field-less messages)'),
+    ('C08_echo_message_nofloat32', 'copy_echo_nofloat32', 'the same without float32 fields, free of the classical axioms'),
+    ('C08_plan_read_quiet', 'copy_from_plan_quiet', 'reading a plan never produces a diagnostic'),
+    ('C08_echo_known_exact', 'echo_prim_exact', 'what the relation says of a known non-null scalar: it comes back identical'),
+    ('C08_echo_unknown_known', 'echo_prim_unknown', 'and of an unknown one: it comes back known'),
 ])
 
 T['C09'] = ("""C09 Refresh: in-place CopyTo makes collections and known values follow the source.""", [
